@@ -420,10 +420,45 @@ def work_dwarf(task):
     return ev
 
 
+FILTERS = ["(== 2)", "?(2 ?lt)", "!(0 ?gt)", "(> 5)", "?(dup 1 ?eq)", "(== 1) (!= 3)", "?()", "!()", "()", "?(drop)", "(== 2) ()",
+           "?(1 add 3 ?eq)", "?(|A| A 2 ?eq)", "?(type T_CONST ?eq)", "!(type T_CONST ?eq)"]
+FILTER_INPUTS = ["(1, 2, 3)", "2", "7", "(2, 2)", "(1, 2) (3, 4)", "(\"a\", 2, [])"]
+
+
+def work_filters(task):
+    """A body that only asserts never makes a new stack: F* yields every input exactly once whether F holds on it or
+    not (zero applications), F+ yields the inputs on which F holds; also inside another closure and next to one."""
+    ev = Evidence()
+    drv = Driver()
+    try:
+        for F in FILTERS:
+            for I in FILTER_INPUTS:
+                def run(q):
+                    return drv.run(q, limit=200, steps=200000)
+                ri, rf = run(I), run("%s %s" % (I, F))
+                if not all("res" in r and r.get("end") and "error" not in r for r in (ri, rf)):
+                    continue
+                for q, want, what in (("%s (%s)*" % (I, F), ri, "F* = the inputs"), ("%s (%s)+" % (I, F), rf, "F+ = the inputs on which F holds"),
+                                      ("%s ((%s)*)*" % (I, F), ri, "(F*)* = the inputs"), ("%s ((%s)* ())+" % (I, F), ri, "(F* ())+ = the inputs"),
+                                      ("%s (%s)* (%s)*" % (I, F, F), ri, "F* F* = the inputs"), ("%s ((%s)+)*" % (I, F), ri, "(F+)* = the inputs")):
+                    r = run(q)
+                    ev.case(key=("filter", q), nontrivial=len(ri["res"]) != len(rf["res"]))
+                    ev.label("filter-only-closure-body")
+                    if not ("res" in r and r.get("end") and "error" not in r) or multiset(r) != multiset(want):
+                        ev.violations.append({"property": PID, "query": q, "signature": "C10:filter:" + q,
+                                              "reason": "%s: yields %d stack(s), expected %d; error %r" % (what, len(r.get("res", [])), len(want["res"]), r.get("error") or r.get("cerror"))})
+    except (DriverCrash, DriverTimeout) as e:
+        ev.violations.append({"property": PID, "query": "filter closures", "reason": "crashed or hung: " + str(e)[-2000:], "signature": "C10:filter-crash"})
+    finally:
+        drv.kill()
+    return ev
+
+
 def main(tier, seed):
     t0 = time.time()
     n = 20000 if tier == "quick" else 300000
     ev = Evidence()
+    ev.merge(work_filters(None))
     per = max(50, n // 48)
     ev.merge(run_pool(work_model, [(seed, s, min(per, n - s)) for s in range(0, n, per)]))
     nd = len(deep_programs()) + len(random_rule_tables(seed, NRULES))
@@ -439,6 +474,7 @@ def main(tier, seed):
                   health={"cyclic graphs seen": ev.labels.get("graph-with-cycle-or-diamond", 0) > 100,
                           ">=2 start stacks": sum(ev.labels.get("starts:%d" % k, 0) for k in (2, 3, 4)) > 100,
                           "laws checked": ev.labels.get("law:E+=distinct(E E*)", 0) > 50,
+                          "closures over filter-only bodies": ev.labels.get("filter-only-closure-body", 0) > 300,
                           "deep-stack closures": ev.labels.get("deep-stack-closure", 0) > 100,
                           "dwarf graphs checked": sum(1 for k in ev.labels if k.startswith("dwarf-file:")) >= 4})
 
